@@ -20,6 +20,15 @@ def repo_dir():
     return os.path.abspath(os.environ.get("VERIF_REPO", "/repo"))
 
 
+def crate_dir():
+    """Directory holding the generated Cargo.toml for the current ${VERIF_REPO}: one per repository
+    path, so that runs against different copies of the repository (the real /repo, scratch worktrees
+    with a seeded defect) never share a manifest.  The sources stay in /verif/harness/src."""
+    r = repo_dir()
+    name = "crate-main" if r == "/repo" else "crate-" + hashlib.sha1(r.encode()).hexdigest()[:10]
+    return os.path.join(BUILD, name)
+
+
 def target_dir(worker=0):
     """One private cargo target directory per worker: `cargo kani --harness X` recompiles the
     harness crate for every harness (the filter is a compiler argument), and cargo serialises
@@ -57,13 +66,15 @@ def gen_manifest():
     with _gen_lock:
         os.makedirs(BUILD, exist_ok=True)
         os.makedirs(LOGS, exist_ok=True)
+        cd = crate_dir()
+        os.makedirs(cd, exist_ok=True)
         tpl = open(os.path.join(HARNESS, "Cargo.toml.in")).read()
-        txt = tpl.replace("@REPO@", repo_dir())
-        p = os.path.join(HARNESS, "Cargo.toml")
+        txt = tpl.replace("@REPO@", repo_dir()).replace("@HARNESS@", HARNESS)
+        p = os.path.join(cd, "Cargo.toml")
         if not os.path.exists(p) or open(p).read() != txt:
             open(p, "w").write(txt)
         lock_src = os.path.join(repo_dir(), "Cargo.lock")
-        lock_dst = os.path.join(HARNESS, "Cargo.lock")
+        lock_dst = os.path.join(cd, "Cargo.lock")
         if os.path.exists(lock_src) and not os.path.exists(lock_dst):
             shutil.copy(lock_src, lock_dst)
         rg = os.path.join(HARNESS, "src", "replay_gen.rs")
@@ -146,9 +157,10 @@ def _tree_rss_kb(pgid):
     return tot
 
 
-def run_cmd_watch(cmd, log_path, timeout_s, mem_gb, cwd=HARNESS, env=None):
+def run_cmd_watch(cmd, log_path, timeout_s, mem_gb, cwd=None, env=None):
     """Run cmd in its own process group, with wall-clock and RSS caps. Returns (rc, status)."""
     t0 = time.time()
+    cwd = cwd or crate_dir()
     with open(log_path, "w") as lf:
         p = subprocess.Popen(cmd, cwd=cwd, env=env or base_env(), stdout=lf, stderr=subprocess.STDOUT,
                              preexec_fn=os.setsid)
